@@ -4,6 +4,7 @@ import sys
 import sympy
 
 from .. import facts, ev, nf, quant
+from ..models import narrowing_casts
 from ..facts import short, strip_cvref
 from ..frontend import NUMERIC, VERIF
 
@@ -69,6 +70,7 @@ def run(chk):
                      "decided by normalisation")
     chk.rule("R1", "every kernel / product overload equals its index-notation definition on the embedded operands (polynomial identity => exact on integer inputs)")
     chk.rule("R2", "Inverse() is present exactly when Determinant() != 0 and then equals Adjugate()/Determinant(); Inverse * original == I algebraically")
+    chk.rule("R4", "no kernel computes through a numeric type narrower than its own (e.g. an unqualified sqrt resolving to ::sqrt(double) in the long double instantiation)")
     chk.rule("R3", "compound assignments of the tensor classes equal the corresponding pure operator")
     chk.assumptions += ["polynomial identity over Q implies exact agreement on integer-valued inputs (degree <= 3, no rounding below 2^53/products)",
                         "the few-ulp clause on non-integer inputs is NOT decided (cancellation in determinants is input-dependent)"]
@@ -104,6 +106,10 @@ def run(chk):
                 try:
                     E = ev.Evaluator(F)
                     res, this_lv, args = E.run_symbolic(f, this_prefix="a", arg_prefixes=["b"])
+                    nar = narrowing_casts(E.load(this_lv) if kind == "cassign" else E.rv(res), T)
+                    if nar:
+                        chk.violated("R4", inst, "the %s kernel narrows an intermediate to %s (%s): the result has only %s precision" % (T, nar[0][0], ev.show(nar[0][1])[:100], nar[0][0]), loc)
+                        continue
                     conv = nf.Conv()
                     E0 = ev.Evaluator(F)
                     A = TA.embed(sh, comps(conv, E0.symbolic(tn, "a")))
@@ -158,6 +164,10 @@ def run(chk):
             try:
                 E = ev.Evaluator(F)
                 res, _, args = E.run_symbolic(f, arg_prefixes=["a", "b"])
+                nar = narrowing_casts(E.rv(res), T)
+                if nar:
+                    chk.violated("R4", inst, "the %s kernel narrows an intermediate to %s (%s)" % (T, nar[0][0], ev.show(nar[0][1])[:100]), loc)
+                    continue
                 conv = nf.Conv()
                 E0 = ev.Evaluator(F)
                 ops = []
